@@ -439,7 +439,7 @@ class _Run:
                            'live': {str(k): v for k, v in live.items()}})
 
 
-WALL = 4.0            # per-case wall-clock guard (a healthy case takes a few ms)
+WALL = 4.0            # per-case guard in CPU seconds (a healthy case takes a few ms); wall-clock backstop at 10x
 WALL_CONFIRM = 8.0   # a guard hit is re-run once, alone, with this guard before it counts
 MAX_HANGS = 2         # stop evaluating further cases after this many confirmed hangs (they are violations already)
 
@@ -535,9 +535,15 @@ def _guarded_run(main, wall: float, exec_delay: int = 0):
     def on_alarm(signum, frame):
         raise _Guard()
 
+    # The budget is CPU time of this process (ITIMER_PROF), as in `simloop.run`: on a loaded machine a case that needs a
+    # few ms of CPU can take many seconds of wall time, and a guard that fires then turns load into a false alarm.  A busy
+    # loop burns CPU and is still caught; a loop that BLOCKS (nothing ready, no timer) burns none: the wall-clock timer
+    # stays as a backstop at ten times the budget.  Both repeat, so that busy loops inside clean-up are left as well.
     old = signal.signal(signal.SIGALRM, on_alarm)
+    old_prof = signal.signal(signal.SIGPROF, on_alarm)
     try:
-        signal.setitimer(signal.ITIMER_REAL, wall, 1.0)
+        signal.setitimer(signal.ITIMER_REAL, wall * 10, 10.0)
+        signal.setitimer(signal.ITIMER_PROF, wall, 1.0)
         try:
             with simloop.patched_clock(loop):
                 res = loop.run_until_complete(main(loop))
@@ -556,10 +562,12 @@ def _guarded_run(main, wall: float, exec_delay: int = 0):
                 except BaseException:
                     break
     except _Guard:
-        raise TimeoutError('wall-clock guard: the case does not come to rest') from None
+        raise TimeoutError('time guard (CPU budget / wall-clock backstop): the case does not come to rest') from None
     finally:
         signal.setitimer(signal.ITIMER_REAL, 0)
+        signal.setitimer(signal.ITIMER_PROF, 0)
         signal.signal(signal.SIGALRM, old)
+        signal.signal(signal.SIGPROF, old_prof)
         asyncio.set_event_loop(None)
         try:
             loop.close()
